@@ -383,7 +383,7 @@ def _precondition(
       g = scaled_lowrank_component
       inv_tail = axis_state.inv_tail if not ekfac else axis_state.inv_prev_tail
       g += inv_tail * complement
-  return g
+  return g.astype(update.dtype)
 
 
 # pylint: disable = g-long-lambda
